@@ -31,8 +31,11 @@ LEVEL_TEXT = (
     "grow produces exactly the well-typed programs of depth <= limit, position-independent grow and the dynamic-"
     "SGE mapping stay inside that language, full creation through the limit its initializer configures produces "
     "exactly the programs all of whose branches end at the limit (grammars where every abstract type is "
-    "recursive). Grammars with lists are outside the model (known finding R1); beyond the listed grammars and "
-    "limits the equality is not claimed."
+    "recursive). (R7) no invalid program through a refined list: its elements are created as values of the "
+    "declared element type (the C02.R7 model). Where the affine engine cannot follow the full decider's filter "
+    "(R3), the offset is read from the finite-model interpretation of the chooser on scripted distances. Grammars"
+    " with lists are outside the model (known finding R1); beyond the listed grammars and limits the equality is "
+    "not claimed."
 )
 
 
